@@ -25,6 +25,7 @@ def dispatch (j : Json) : Except String Json := do
   | "escape" => opEscape j
   | "major_build" => opMajorBuild j
   | "major_filter" => opMajorFilter j
+  | "minor_filter" => opMinorFilter j
   | "cn_build" => opCNBuild j
   | "cn_filter" => opCNFilter j
   | "cn_fold" => opCNFold j
